@@ -70,6 +70,10 @@ def law(cell):
     for (bc, m), p in zip(pts, points):
         if abs(p.Mach - m) > 1e-4 * m:
             out.append({'msg': f'BC point given as velocity ({form}) for Mach {m} reports Mach {p.Mach}', 'key': None})
+    # "building it twice from the same inputs gives the same model" whatever was built in between: a model on another table and then one with other
+    # BC values at the SAME Mach knots on the same table are built first (anything remembered from the previous build shows up)
+    pb.DragModelMultiBC([pb.BCPoint(0.41, Mach=1.7), pb.BCPoint(0.37, Mach=0.6)], _table('G1' if tname != 'G1' else 'G7'))
+    pb.DragModelMultiBC([pb.BCPoint(bc * 0.5 + 0.07, Mach=m) for bc, m in pts], table, *args)
     dmm = pb.DragModelMultiBC(points, table, *args)
     # inputs intact
     if [(p['Mach'], p['CD']) for p in table] != std:
